@@ -649,6 +649,29 @@ Proof.
   cbn in H. inversion H. f_equal. rewrite Hp. f_equal. f_equal. lia.
 Qed.
 
+(** * Stop time: the period layout is frozen from the stop time on *)
+
+Theorem stop_frozen w loopMS c now1 now2 s tsbdMS pph seg mode cont ases :
+  s * 1000 <= now1 -> s * 1000 <= now2 ->
+  livePeriodsStop w loopMS c now1 (Some s) tsbdMS pph seg mode cont ases =
+  livePeriodsStop w loopMS c now2 (Some s) tsbdMS pph seg mode cont ases /\
+  livePeriodsStop w loopMS c now1 (Some s) tsbdMS pph seg mode cont ases =
+  livePeriods w loopMS c (s * 1000) tsbdMS pph seg mode cont ases.
+Proof.
+  intros H1 H2. unfold livePeriodsStop, liveEndMS.
+  assert (E : forall n, s * 1000 <= n -> (if s * 1000 <? n then s * 1000 else n) = s * 1000)
+    by (intros n Hn; destruct (s * 1000 <? n) eqn:E; lia).
+  rewrite (E now1 H1), (E now2 H2). split; reflexivity.
+Qed.
+
+Theorem stop_before w loopMS c now s tsbdMS pph seg mode cont ases :
+  now <= s * 1000 ->
+  livePeriodsStop w loopMS c now (Some s) tsbdMS pph seg mode cont ases =
+  livePeriods w loopMS c now tsbdMS pph seg mode cont ases.
+Proof.
+  intros H. unfold livePeriodsStop, liveEndMS. replace (s * 1000 <? now) with false by lia. reflexivity.
+Qed.
+
 (** * Witnesses *)
 
 (** The range check of periods-per-hour sits in verifyAndFillConfig (commit 9fbd9f7): every value
